@@ -159,6 +159,16 @@ def gen_C02(r):
         scn["history"].append(_run_op(r, scn["tasks"], jobs_choices=(None, None, 2, 4), again_p=0.25,
                                       fail_p=r.choice([0.0, 0.0, 0.0, 0.2]), files=False,
                                       target=r.choice(list(scn["tasks"])) if r.random() < 0.5 else None))
+    if r.random() < 0.04:
+        # a cond-out of Conductor <= 0.4 (index format 1); the command that upgrades it is killed somewhere (often
+        # inside the upgrade): later commands must still work and still see the recorded versions
+        exps_ = [t for t, d in scn["tasks"].items() if d["kind"] == "exp"]
+        if exps_:
+            scn["knobs"]["mon"] = True
+            first = dict(scn["history"][0], kill=int(10 ** r.uniform(1.0, 2.6)))
+            scn["history"] = [{"op": "legacy_index", "rows": [[t, scn["epoch"] - 7000 - 13 * j] for j, t in enumerate(exps_[:3])]},
+                              first] + scn["history"]
+            return scn
     if r.random() < 0.2:
         scn["history"][-1]["flags"]["check"] = True
     elif r.random() < 0.08:
@@ -1020,10 +1030,22 @@ def gen_C13(r):
                                               "what": r.choice(["version", "package"])}]})
     if r.random() < 0.2:
         scn["enclosing"] = True
+    elif r.random() < 0.12:
+        scn["condout_symlink"] = True        # results live on another volume: cond-out is a symbolic link
+    if r.random() < 0.06:
+        # cond-out of Conductor <= 0.4 with recorded versions; the first command of this Conductor (it upgrades the
+        # index) is killed; gc comes later
+        exps_ = [t for t, d in scn["tasks"].items() if d["kind"] == "exp"]
+        if exps_:
+            ops = [{"op": "legacy_index", "rows": [[t, scn["epoch"] - 7000 - 13 * j] for j, t in enumerate(exps_[:3])]},
+                   {"op": "where", "target": exps_[0], "flags": {}, "cwd": "", "kill": int(10 ** r.uniform(1.0, 2.6))}] + \
+                  [o for o in ops if o["op"] not in ("plant",)]
     n_gc = r.choice([1, 1, 2])
     for k in range(n_gc):
         ops.append({"op": "gc", "flags": {"dry": r.random() < 0.45, "verbose": r.random() < 0.4},
-                    "cwd": r.choice(["", "", ""] + [p_ for p_ in scn["pkgs"] if p_] + ["cond-out"])})
+                    "cwd": r.choice(["", "", ""] + [p_ for p_ in scn["pkgs"] if p_] +
+                                    # (a working directory inside a symlinked cond-out is physically outside the project)
+                                    ([] if scn.get("condout_symlink") else ["cond-out"]))})
     if r.random() < 0.3:
         ops.append(_run_op(r, scn["tasks"], jobs_choices=(None,), again_p=0.0, files=False, cwds=("",)))
     scn["history"] = ops
